@@ -1,6 +1,12 @@
 (* C16 - textual paths and gNMI paths are one and the same.
    Model: Model/Path.v (transcription of pkg/utils/gnmiPathUtils.go, pkg/utils/path/path.go and the
-   path handling of the Set / Get handlers); proofs: Proofs/PathProofs{,2,3}.v. *)
+   path handling of the Set / Get handlers); proofs: Proofs/PathProofs{,2,3}.v.
+
+   All theorems are about the CURRENT code of /repo; none is a refutation of the property.  The positive
+   statements are C16_roundtrip, C16_injective, C16_split, C16_parent, C16_accepted_end_to_end and
+   C16_accepted_parent.  C16_parent_outside_accepted / C16_get_proto_outside_accepted record what the
+   bracket-unaware helpers do with key values containing '/', which the Set handler refuses (findings F-11,
+   F-16a, F-16b, repaired in /repo by 7b08917 and a2a122e; no open finding). *)
 From Coq Require Import List NArith Bool.
 From OC Require Import Base.Bytes Model.Path Proofs.PathProofs Proofs.PathProofs2 Proofs.PathProofs3.
 Import ListNotations.
@@ -22,23 +28,34 @@ Theorem C16_split : forall p, wf_gpath p = true -> split_path (str_path p) = map
 Proof. exact split_path_str_path. Qed.
 Print Assumptions C16_split.
 
-(* the parent of a path is that path without its last element - when the last element has no '/' *)
-Theorem C16_parent_partial : forall p e,
+(* the parent of a path is that path without its last element, whenever the text of the last element has no '/'
+   (every element the Set handler accepts is such: C16_accepted_parent below) *)
+Theorem C16_parent : forall p e,
   slash_free e = true -> get_parent (str_path_elem (p ++ [e])) = str_path_elem p.
 Proof. exact parent_of_path. Qed.
-Print Assumptions C16_parent_partial.
+Print Assumptions C16_parent.
 
-(* ... and not otherwise: key values containing '/' round-trip but are mis-parented, and Get PROTO's
-   strings.Split re-parser breaks them *)
-Theorem C16_parent_refuted :
-  exists p e, wf_gpath (p ++ [e]) = true /\ get_parent (str_path_elem (p ++ [e])) <> str_path_elem p.
-Proof. exact parent_refuted. Qed.
-Print Assumptions C16_parent_refuted.
+(* Still true of the CURRENT code, and not a finding: GetParentPath (LastIndex "/") and createUpdate's
+   strings.Split re-parser are not bracket-aware, so a path whose key value contains '/' - which does round-trip
+   through SplitPath/ParseGNMIElements - is mis-parented and is broken by Get PROTO.  Such a path is OUTSIDE what
+   the system accepts (accepted_gpath = false: the value fails IndexAllowedChars, C16_slash_not_accepted), and the
+   Set handler refuses it on both routes since /repo 7b08917 (updates: CheckKeyValue validates every index value;
+   finding F-11) and /repo a2a122e (deletes: doDelete validates index values; findings F-16a, F-16b); the
+   end-to-end stream of the check monitors exactly that refusal (c16_update_slash_key_accepted,
+   c16_delete_slash_key_accepted, c16_stored_but_not_reported).  Environment assumption that remains: path texts
+   that the model plugin derives from JSON values are stored without passing that gate; the plugin is outside
+   /repo and is assumed to render key values over the accepted alphabet. *)
+Theorem C16_parent_outside_accepted :
+  exists p e, wf_gpath (p ++ [e]) = true /\ accepted_gpath (p ++ [e]) = false /\
+              get_parent (str_path_elem (p ++ [e])) <> str_path_elem p.
+Proof. exact parent_outside_accepted. Qed.
+Print Assumptions C16_parent_outside_accepted.
 
-Theorem C16_get_proto_refuted :
-  exists p, wf_gpath p = true /\ parse_path (str_path p) = ROk p /\ create_update_path (str_path p) <> ROk p.
-Proof. exact get_proto_refuted. Qed.
-Print Assumptions C16_get_proto_refuted.
+Theorem C16_get_proto_outside_accepted :
+  exists p, wf_gpath p = true /\ accepted_gpath p = false /\
+            parse_path (str_path p) = ROk p /\ create_update_path (str_path p) <> ROk p.
+Proof. exact get_proto_outside_accepted. Qed.
+Print Assumptions C16_get_proto_outside_accepted.
 
 (* for everything the Set handler accepts (YANG-identifier names, key values over
    IndexAllowedChars) the stored text StrPath(prefix)++StrPath(path) is parsed back to the client's
